@@ -68,8 +68,12 @@ def WS.deactivate (w : WS) (fid : Nat) : Kind → WS
   | .loss _ _ _ => { w with loss := w.loss.filter (·.fid != fid) }
   | .cap _ _ => { w with capf := w.capf.filter (·.fid != fid) }
 
-/-- `Network.heal_partition()`: every pair is unblocked and every outstanding handle is spent -/
-def WS.healAll (w : WS) : WS := { w with bi := fun _ _ => 0, dir := fun _ _ => 0, live := [] }
+/-- `Network.heal_partition()` on network `k`: every pair of that network is unblocked and every
+    outstanding handle of that network (`onNet f`: `Partition._network is` network `k`) is spent -/
+def WS.healAll (w : WS) (k : Nat) (onNet : Nat → Bool) : WS :=
+  { w with bi := fun a b => if netOf a = k then 0 else w.bi a b,
+           dir := fun a b => if netOf a = k then 0 else w.dir a b,
+           live := w.live.filter fun f => !onNet f }
 
 /-! ### what the rest of the system reads -/
 
